@@ -1,0 +1,12 @@
+//go:build verif
+
+package client
+
+import "net/http"
+
+// NewWithRoundTripper constructs a LogClient whose HTTP requests go through rt
+// instead of a dialing transport. Used only by the external verification
+// harness (build tag "verif"), which serves the log from a simulated server.
+func NewWithRoundTripper(uri string, rt http.RoundTripper) *LogClient {
+	return &LogClient{Uri: uri, httpClient: &http.Client{Transport: rt}}
+}
